@@ -109,7 +109,7 @@ func inclBookingRun(w *World) {
 	for ph := 0; ph < nphases && ok; ph++ {
 		if len(subs) < 2 && t.Flag(1, 2) {
 			openSub()
-			w.wait()
+			w.Run() // let the stream start up completely (library goroutines may be scheduled lazily) before the next write
 		}
 		type op struct {
 			create bool
